@@ -99,7 +99,7 @@ def agree(ctx, name, fn, kwargs, spec, same=None, variants=None):
     ``variants`` -- dicts of replaced option values that mean the same) and record a violation when outcomes differ.
     Returns the keyword call's (status, value)."""
     st, v = outcome(fn, **kwargs)
-    same = same or (lambda a, b: a == b)
+    same = same or (lambda a, b: a == b or repr(a) == repr(b))      # (repr: NaN-valued results are the same result)
     calls = []
     try:
         args, rest = positional(name, kwargs)
